@@ -91,7 +91,8 @@ class Ctx:
     def violation(self, mechanism, message, params):
         """Record a violation. params must be JSON-serialisable and sufficient for replay()."""
         self.violations.append(
-            {"mechanism": mechanism, "message": str(message)[:2000], "params": params}
+            {"mechanism": mechanism, "message": str(message)[:2000], "params": params,
+             "hashseed": os.environ.get("PYTHONHASHSEED", "")}
         )
         if self.replaying:
             return
@@ -201,7 +202,9 @@ def drive(prop, tier, seed):
     for w in range(nworkers):
         out = os.path.join(WORKDIR, f"{tag}-{w}.json")
         env = dict(os.environ)
-        env["PYTHONHASHSEED"] = "0" if tier == "quick" else str((seed * 31 + w) % 4294967295)
+        # every worker hashes str/bytes differently (set / dict-of-str iteration order is part of the environment
+        # the properties quantify over); deterministic per (seed, worker), recorded in the replay file
+        env["PYTHONHASHSEED"] = str((seed * 31 + w) % 4294967295)
         env["PYTHONDONTWRITEBYTECODE"] = "1"
         env["VERIF_REPO"] = REPO
         cmd = [
@@ -373,6 +376,7 @@ def drive(prop, tier, seed):
                         "params": v["params"],
                         "tier": tier,
                         "seed": seed,
+                        "hashseed": v.get("hashseed", ""),
                     },
                     f,
                     indent=1,
@@ -400,6 +404,11 @@ def replay(prop, path):
     mod = load_module(prop)
     with open(path, encoding="utf-8") as f:
         rep = json.load(f)
+    hs = str(rep.get("hashseed", ""))
+    if hs and os.environ.get("PYTHONHASHSEED", "") != hs and os.environ.get("VERIF_REEXEC") != "1":
+        # reproduce under the same string-hash seed as the worker that observed the violation
+        env = dict(os.environ, PYTHONHASHSEED=hs, VERIF_REEXEC="1")
+        return subprocess.call([sys.executable, "-B"] + sys.argv, env=env)
     ctx = Ctx(prop, rep.get("tier", "quick"), rep.get("seed", 0), 0, 1, replaying=True)
     mod.replay(ctx, rep["params"])
     if ctx.violations:
